@@ -1479,3 +1479,46 @@ def extent_params(tu, name):
 
     visit(body, [])
     return {p: sorted(v)[0] for p, v in out.items() if len(v) == 1}
+
+
+def clamp_params(tu, name):
+    """C functions that bound an array in place: a pointer parameter P is stored to at a loop index and the function
+    compares (a value read from) the array with an integer parameter N that is not a loop bound, e.g.
+        di = P[g]; cond = di < N; P[g] = cond ? di : N - eps;
+    -> (sorted pointer parameter names written in place, N) or None"""
+    params = {p["id"]: (p.get("name"), p.get("type", {}).get("qualType", "")) for p in tu.params(name)}
+    body = tu.body(name)
+    if body is None:
+        return None
+    bounds, stored, read = set(), set(), set()
+    cmp_ints = set()
+    for n in cfacts.walk(body):
+        k = n.get("kind")
+        if k == "ForStmt":
+            raw = [c for c in (n.get("inner") or []) if isinstance(c, dict)]
+            if len(raw) == 5 and raw[2].get("kind"):
+                for x in cfacts.walk(raw[2]):
+                    if x.get("kind") == "DeclRefExpr" and x["referencedDecl"]["id"] in params:
+                        bounds.add(x["referencedDecl"]["id"])
+        if k == "BinaryOperator" and n.get("opcode") == "=":
+            t = cfacts.strip(cfacts.kids(n)[0])
+            if t.get("kind") == "ArraySubscriptExpr":
+                b = cfacts.strip(cfacts.kids(t)[0])
+                if b.get("kind") == "DeclRefExpr" and b["referencedDecl"]["id"] in params:
+                    stored.add(b["referencedDecl"]["id"])
+            for x in cfacts.walk(cfacts.kids(n)[1]):
+                if x.get("kind") == "ArraySubscriptExpr":
+                    b = cfacts.strip(cfacts.kids(x)[0])
+                    if b.get("kind") == "DeclRefExpr" and b["referencedDecl"]["id"] in params:
+                        read.add(b["referencedDecl"]["id"])
+        if k == "BinaryOperator" and n.get("opcode") in ("<", ">", "<=", ">="):
+            for side in cfacts.kids(n):
+                s_ = cfacts.strip(side)
+                if s_.get("kind") == "DeclRefExpr" and s_["referencedDecl"]["id"] in params \
+                        and "*" not in params[s_["referencedDecl"]["id"]][1]:
+                    cmp_ints.add(s_["referencedDecl"]["id"])
+    ns = [i for i in cmp_ints if i not in bounds]
+    ps = sorted(params[i][0] for i in stored & read)
+    if len(ns) == 1 and ps:
+        return ps, params[ns[0]][0]
+    return None
